@@ -75,6 +75,10 @@ type evalIn struct {
 	Start int `json:"start"` // seconds
 	End   int `json:"end"`
 	Step  int `json:"step"` // 0 with start = end: instant
+	// additional milliseconds (0..999) of start, end and step: grids of sub-second steps
+	StartMs int `json:"startMs"`
+	EndMs   int `json:"endMs"`
+	StepMs  int `json:"stepMs"`
 }
 
 type metricIn struct {
@@ -204,11 +208,11 @@ func (famMetric) Exec(scn int, raw json.RawMessage, t *Trace, opt map[string]str
 	for _, ev := range in.Evals {
 		for rep := 0; rep < reps; rep++ {
 			run++
-			t.Ev(scn, "Run", F{"run": run, "start": ev.Start, "end": ev.End, "step": ev.Step, "txt": q})
+			t.Ev(scn, "Run", F{"run": run, "start": ev.Start, "end": ev.End, "step": ev.Step, "startMs": ev.StartMs, "endMs": ev.EndMs, "stepMs": ev.StepMs, "txt": q})
 			store := &MemStore{t: nil, scn: scn, recs: in.Recs, caps: CapsIn{Label: allOps, Line: []string{}}}
 			eng := logqlengine.NewEngine(store, logqlengine.Options{})
-			p := logqlengine.EvalParams{Start: tsOf(time.Unix(int64(ev.Start), 0)), End: tsOf(time.Unix(int64(ev.End), 0)),
-				Step: time.Duration(ev.Step) * time.Second, Limit: -1}
+			p := logqlengine.EvalParams{Start: tsOf(time.Unix(int64(ev.Start), int64(ev.StartMs)*1e6)), End: tsOf(time.Unix(int64(ev.End), int64(ev.EndMs)*1e6)),
+				Step: time.Duration(ev.Step)*time.Second + time.Duration(ev.StepMs)*time.Millisecond, Limit: -1}
 			r := evalWithWatchdog(eng, q, p, 20*time.Second)
 			if r.Err == nil && r.Panic == nil && !r.Hang {
 				projectResult(t, scn, r.Data)
@@ -324,6 +328,16 @@ func genEvals(r *rand.Rand, span int) []evalIn {
 		end := start + r.Intn(span)
 		evs = append(evs, evalIn{Start: start, End: end, Step: step})
 	}
+	if r.Intn(3) == 0 {
+		// a sub-second grid whose span is a whole multiple of the step (the last point is the end itself): quotients such
+		// as 0.3 / 0.1 or 1.2 / 0.4 are not whole in binary floating point
+		stepMs := []int{100, 200, 400, 300, 700, 50}[r.Intn(6)]
+		kk := 1 + r.Intn(12)
+		start := mBase + r.Intn(span/2+1)
+		sm := []int{0, 0, 100, 900, 500}[r.Intn(5)]
+		endMs := sm + kk*stepMs
+		evs = append(evs, evalIn{Start: start, StartMs: sm, End: start + endMs/1000, EndMs: endMs % 1000, Step: 0, StepMs: stepMs})
+	}
 	// an instant evaluation somewhere on the first grid
 	k := r.Intn((evs[0].End-evs[0].Start)/evs[0].Step + 1)
 	t := evs[0].Start + k*evs[0].Step
@@ -374,7 +388,7 @@ func genMetric(r *rand.Rand, mode string) metricIn {
 	case "series":
 		// many labels, values that are prefixes / concatenations of one another, everything inside one wide window
 		names := []string{"a", "ab", "b", "abc", "c", "bc", "x"}
-		vals := []string{"", "c", "bc", "b", "abc", "a", "\xff", "b\xffc"}
+		vals := []string{"", "c", "bc", "b", "abc", "a", "\xff", "b\xffc", "c b:bc", "c ab:bc", "c] map[b:bc"} // the last three print like two labels
 		n := 2 + r.Intn(10)
 		sets := make([][][2][]int, 2+r.Intn(4))
 		for i := range sets {
@@ -386,6 +400,11 @@ func genMetric(r *rand.Rand, mode string) metricIn {
 					sets[i] = append(sets[i], [2][]int{B(nm), B(pick(r, vals))})
 				}
 			}
+		}
+		if r.Intn(5) == 0 {
+			// two label sets that read alike once printed without quoting: {a="c b:bc"} and {a="c", b="bc"}
+			sets[0] = [][2][]int{{B("a"), B("c b:bc")}}
+			sets[1] = [][2][]int{{B("a"), B("c")}, {B("b"), B("bc")}}
 		}
 		for i := 0; i < n; i++ {
 			set := sets[r.Intn(len(sets))]
